@@ -836,9 +836,13 @@ def model_correspondence(rep, drv, paths, arena):
             x = MemoryFS()
             members.append(x)
             mf.mount(mp, x)
-        reqs = ["confine.mount %s %s" % (hxlist(mounts), hx(p)) for p in paths]
+        # as coded (since /repo 48e26ed): the MountFS's own invalid characters ("\0") are refused on the raw path
+        # before normpath could remove them (FsModel.Confine.mountDelegateChk)
+        nul_mount = ["foo/x\0/../a", "x\0/../foo/a", "foo/a\0", "foo2/\0/..", "\0/../..", "a.b/\0/../c"]
+        mpaths = list(paths) + [q for q in extra_paths if len(q) < 3000] + nul_mount
+        reqs = ["confine.mountnc %s %s %s" % (hx("\0"), hxlist(mounts), hx(p)) for p in mpaths]
         out = drv.batch(reqs)
-        for p, m in zip(paths, out):
+        for p, m in zip(mpaths, out):
             rep.evaluations += 1
 
             def deleg():
